@@ -675,21 +675,31 @@ inline bool fin(double d)
     return (bits(d) & 0x7FF0000000000000ULL) != 0x7FF0000000000000ULL;
 }
 
-void guard_nonzero(const z3::expr& y)
+int decide(const z3::expr& c0);
+// x / 0 under IEEE with x a finite real: NaN if x == 0, +-inf otherwise (sign of the zero taken as +)
+double div_by_zero(const z3::expr& x, bool negzero)
 {
-    // IEEE would produce inf/nan: the zero side is outside the claim (counted)
+    if (decide(x == 0)) return std::nan("");
+    const bool pos = decide(x > 0) != 0;
+    return (pos != negzero) ? HUGE_VAL : -HUGE_VAL;
+}
+// returns false when the divisor is zero on every continuation of this path (caller applies IEEE semantics);
+// otherwise assumes y != 0: the zero side (measure zero) is outside the claim and counted in div_guards
+bool guard_nonzero(const z3::expr& y)
+{
     ensure_model();
     z3::expr nz = (y != 0);
     int      v  = model_eval_bool(nz);
     if (v != 1)
     {
         QR r = query(&nz);
-        if (r.r == z3::unsat) finish(K_EXCLUDED, "division by a symbolic value that is zero on this path");
+        if (r.r == z3::unsat) return false;
         if (r.r == z3::unknown) finish(K_INCONCLUSIVE, "solver unknown on divisor");
         mdl = std::move(r.m);
     }
     S->div_guard++;
     pc->push_back(nz);
+    return true;
 }
 
 std::string pc_summary()
@@ -1001,15 +1011,19 @@ double __sym_bin(int op, double a, double b)
     }
     if (special(a) || special(b))
     {
-        // min/max against +-inf or NaN keep IEEE semantics with the symbolic value treated as finite
+        // IEEE semantics with the symbolic operand being a finite real
+        const double cv = isbox(a) ? b : a, sv = isbox(a) ? a : b;
         if (op == B_MIN || op == B_MAX)
         {
-            const double cv = isbox(a) ? b : a, sv = isbox(a) ? a : b;
             if (cv != cv) return sv;
             if (op == B_MIN) return cv < 0 ? cv : sv;
             return cv > 0 ? cv : sv;
         }
-        finish(K_EXCLUDED, "arithmetic on symbolic value and concrete nan/inf");
+        if (cv != cv) return cv; // NaN propagates through every arithmetic operation
+        if (op == B_ADD) return cv;                                    // finite + (+-inf)
+        if (op == B_SUB) return isbox(a) ? -cv : cv;                   // finite - inf, inf - finite
+        if (op == B_DIV && isbox(a)) return cv > 0 ? 0.0 : -0.0;       // finite / inf = 0 (sign ignored over the reals)
+        finish(K_EXCLUDED, "multiplication/division of a symbolic value with concrete infinity");
     }
     z3::expr x = ex(a), y = ex(b);
     switch (op)
@@ -1020,8 +1034,11 @@ double __sym_bin(int op, double a, double b)
         if ((bits(a) << 1) == 0 || (bits(b) << 1) == 0) return 0.0;
         return box(x * y);
     case B_DIV:
-        if (isbox(b)) guard_nonzero(y);
-        else if ((bits(b) << 1) == 0) finish(K_EXCLUDED, "symbolic value divided by concrete zero");
+        if (isbox(b))
+        {
+            if (!guard_nonzero(y)) return div_by_zero(x, false);
+        }
+        else if ((bits(b) << 1) == 0) return div_by_zero(x, (bits(b) >> 63) != 0);
         return box(x / y);
     case B_MIN: return box(z3::ite(x <= y, x, y));
     case B_MAX: return box(z3::ite(x >= y, x, y));
@@ -1041,7 +1058,7 @@ double __sym_bin(int op, double a, double b)
             for (int i = 0; i < n; ++i) r = r * x;
             if (b < 0)
             {
-                guard_nonzero(x);
+                if (!guard_nonzero(x)) return HUGE_VAL;
                 r = C->real_val(1) / r;
             }
             return box(r);
@@ -1114,7 +1131,7 @@ double __sym_un(int op, double a)
         if (model_eval_bool(nn) != 1)
         {
             QR r = query(&nn);
-            if (r.r == z3::unsat) finish(K_EXCLUDED, "sqrt of a symbolic value that is negative on this path");
+            if (r.r == z3::unsat) return std::nan(""); // IEEE: sqrt of a negative value
             if (r.r == z3::unknown) finish(K_INCONCLUSIVE, "solver unknown on sqrt argument");
             mdl = std::move(r.m);
         }
@@ -1312,6 +1329,7 @@ void sym_check_cmp(double a, int op, double b, const char* lab)
 {
     if (!isbox(a) && !isbox(b))
     {
+        if (concrete_mode) printf("OUT %s %a %a\n", lab, a, b);
         Label* l = label(lab);
         if (symc::concrete_holds(a, op, b, concrete_mode ? 1e-6 : 1e-9))
         {
@@ -1369,6 +1387,7 @@ void sym_close(double a, double b, double rel, const char* lab)
 {
     if (!isbox(a) && !isbox(b))
     {
+        if (concrete_mode) printf("OUT %s %a %a\n", lab, a, b);
         const bool ok = (a != a && b != b) || std::fabs(a - b) <= std::max(rel, concrete_mode ? 1e-6 : 0.0) * (1 + std::fabs(a) + std::fabs(b));
         Label*     l  = label(lab);
         if (ok)
